@@ -42,8 +42,13 @@ class Adjoint(BaseForm):
         form = args[0]
         # Check trivial case: This is not a ufl.Zero but a ZeroBaseForm!
         if form == 0:
-            # Swap the arguments
-            return ZeroBaseForm(form.arguments()[::-1])
+            # Swap the arguments, renumbering them as a nonzero Adjoint does
+            return ZeroBaseForm(
+                tuple(
+                    type(arg)(arg.ufl_function_space(), number=i)
+                    for i, arg in enumerate(form.arguments()[::-1])
+                )
+            )
 
         if isinstance(form, Adjoint):
             return form._form
